@@ -786,10 +786,14 @@ fn main() {
             .into(),
     );
     rep.assumptions.push(
-        "shapes that hit understood defects are kept out of the random sets and covered by one minimal deterministic witness set each (class witness-*; \
+        "shapes that hit a still-open defect are kept out of the random sets and covered by one minimal deterministic witness set each (class witness-*; \
          everything such a set trips is reported under the single signature <side>-witness[<shape>]): headerless SAM whose first QNAME starts with CRAM, placed \
-         unmapped read overhanging its reference end, GT of mixed ploidy >= 2, phased missing allele, Integer-vector FORMAT field missing in all samples, INFO key \
-         with missing value, per-sample vectors of unequal length, a sample column that is '.' altogether"
+         unmapped read overhanging its reference end. The variant witness-* classes are regression sets of repaired defects; their shapes (GT of mixed ploidy, \
+         phased missing allele, vector missing in all samples, INFO key with missing value, per-sample vectors of unequal length, a sample column that is '.') \
+         are part of the random model. Deterministic adversarial sets: headerless SAM / SAM.gz whose first QNAME is or starts with a magic prefix (BAM, BAM_0001, \
+         BAMBI.7, BA, B, BCF, BCF_1, CRA, CRA_M, C) under the ordinary signatures; three multi-block sets per side (>= 300 KiB of text, >= 5 BGZF data blocks \
+         in SAM.gz/BAM/VCF.gz/BCF, long names / SEQ+QUAL / Z, H, B aux / INFO and FORMAT strings and lists / IDs / alleles) so that every kind of value \
+         straddles block boundaries of the BGZF targets"
             .into(),
     );
     rep.assumptions.push(
